@@ -236,6 +236,26 @@ def gen_program(r, pid):
         else:
             L.append('{ mpz_class z("%d"); std::ostringstream os; os << %s << z; char buf[400]; gmp_snprintf(buf, sizeof buf, "%s", z.get_mpz_t()); printf("O %d [%%s] [%%s]\\n", os.str().c_str(), buf); }' % (v, manip, fmt, sid))
             exp[sid] = ('o', None, 'ostream %s vs %s of %d' % (manip, fmt, v))
+    # mpq_class and mpf_class insertion against gmp_snprintf with the equivalent conversion
+    for i in range(8):
+        sid += 1
+        n_ = r.choice([gen.val(r, 2), r.randint(-300, 300), 255, -255, 0]); d_ = r.choice([1, 1, 3, 255, abs(gen.val(r, 1, False)) or 7])
+        basef, conv = r.choice([('dec', 'd'), ('hex', 'x'), ('oct', 'o')])
+        sb = r.random() < 0.4 and n_ != 0; sp = r.random() < 0.3 and conv == 'd'; up = r.random() < 0.3 and conv == 'x'; w = r.choice([0, 0, 14, 40]); adj = r.choice(['left', 'right'])
+        manip = 'std::%s' % basef + (' << std::showbase' if sb else '') + (' << std::showpos' if sp else '') + (' << std::uppercase' if up else '') + (' << std::setw(%d) << std::%s' % (w, adj) if w else '')
+        fmt = '%' + ('#' if sb else '') + ('+' if sp else '') + ('-' if w and adj == 'left' else '') + (str(w) if w else '') + 'Q' + (conv.upper() if up else conv)
+        L.append('{ mpq_class q("%d/%d"); q.canonicalize(); std::ostringstream os; os << %s << q; char buf[600]; gmp_snprintf(buf, sizeof buf, "%s", q.get_mpq_t()); printf("O %d [%%s] [%%s]\\n", os.str().c_str(), buf); }' % (n_, d_, manip, fmt, sid))
+        exp[sid] = ('o', None, 'mpq ostream %s vs %s of %d/%d' % (manip, fmt, n_, d_))
+    for i in range(10):
+        sid += 1
+        m_ = r.choice([r.randint(-10 ** 6, 10 ** 6), r.getrandbits(70) * r.choice([1, -1]), 0, 1, -1, 5]); j_ = r.choice([0, 1, 3, 10, 40, -20]); pr = r.choice([1, 3, 6, 10, 25])
+        ff, conv = r.choice([('fixed', 'f'), ('scientific', 'e')])
+        sp = r.random() < 0.3; up = r.random() < 0.3 and conv == 'e'; w = r.choice([0, 0, 30]); adj = r.choice(['left', 'right'])
+        manip = 'std::%s << std::setprecision(%d)' % (ff, pr) + (' << std::showpos' if sp else '') + (' << std::uppercase' if up else '') + (' << std::setw(%d) << std::%s' % (w, adj) if w else '')
+        fmt = '%' + ('+' if sp else '') + ('-' if w and adj == 'left' else '') + (str(w) if w else '') + '.%d' % pr + 'F' + (conv.upper() if up else conv)
+        val = 'mpf_class f("%d", 256); f %s= mpf_class(%d) << %d;' % (m_, '*' if j_ >= 0 else '/', 1, abs(j_))
+        L.append('{ %s std::ostringstream os; os << %s << f; char buf[900]; gmp_snprintf(buf, sizeof buf, "%s", f.get_mpf_t()); printf("O %d [%%s] [%%s]\\n", os.str().c_str(), buf); }' % (val, manip, fmt, sid))
+        exp[sid] = ('o', None, 'mpf ostream %s vs %s of %d*2^%d' % (manip, fmt, m_, j_))
     for i in range(8):
         sid += 1
         s = r.choice(['123', '-77 rest', '0x1f', '  42', 'ff', 'zz', '0777', '-'])
